@@ -2,7 +2,8 @@
 
 Parts (each in harness/props/c19_<part>.py, all driven from here):
   pack    (H) pack_bitlist op DAG                      Model/C19Pack.v
-Every part exposes  l1(ctx) -> [disagreement]   l2(ctx, deep) -> [failure]   replay(ctx, failure) -> [fail].
+  affine  (T) canonicalize_affine.py                   Gen/CanonAffine.v (translator/py2coq.py) + (H) Model/XdslAffine.v
+Every part exposes  l1_prepare(ctx) -> (coq texts, finish(results) -> [disagreement])   l2(ctx, deep) -> [failure]   replay(ctx, failure) -> [fail].
 """
 from __future__ import annotations
 
@@ -11,8 +12,8 @@ import importlib
 import vlib
 
 PROPERTY = "C19"
-PART_NAMES = ["pack"]
-MODEL_TARGETS = ["Model/C19Pack.vo"]
+PART_NAMES = ["pack", "affine"]
+MODEL_TARGETS = ["Model/C19Pack.vo", "Model/PyLib.vo", "Model/XdslAffine.vo", "Gen/CanonAffine.vo"]
 RULE = ("pack: 0-9 (value, offset) pairs, each a Python int (edge values of the width, negative, out of range) or "
         "one of 4 pre-existing SSA values/ops with arbitrary run-time contents, dtype in {8,16,32,64}, length "
         "mismatches; non-trivial = at least two fields")
@@ -39,9 +40,16 @@ def generate(ctx):
 
 
 def correspondence(ctx):
-    dis = []
+    """every part prepares its Coq cases files; all files are compiled in parallel; every part reads its results"""
+    texts, plan = [], []
     for p in _parts():
-        dis += p.l1(ctx) or []
+        t, finish = p.l1_prepare(ctx)
+        plan.append((p, len(texts), len(t), finish))
+        texts += t
+    results = vlib.coq_eval_many("c19_", texts, timeout=900, par=8)
+    dis = []
+    for (p, off, n, finish) in plan:
+        dis += finish(results[off:off + n]) or []
     return dis
 
 
